@@ -41,6 +41,7 @@ def run(ctx):
     with repo.Scratch("verif-c17-") as tmp:
         file_cache(ctx, built, tmp)
         registry_caches(ctx, tmp)
+        dataset_type_cache(ctx, tmp)
 
 
 # ------------------------------------------------------------------ (a) file cache
@@ -335,6 +336,87 @@ def registry_caches(ctx, tmp):
         ctx.count("regcache-history")
         ctx.nontrivial.add(repr(ops))
         ctx.sample({"registry-cache-history": ops}, cap=6)
+
+
+# ------------------------------------------------------------------ (c) dataset-type cache: warm-up order must not matter
+def dataset_type_cache(ctx, tmp):
+    """Whatever a client did first (which fills the per-name and per-dimensions dataset type caches in different
+    orders), the same battery of queries must give the same answers as on a client that loaded everything at once."""
+    from lsst.daf.butler import Butler, CollectionType, DatasetType, Timespan
+
+    rng = ctx.rng
+    root = os.path.join(tmp, "t")
+    a = repo.make_butler(root, run="r1")
+    repo.basic_dimensions(a, detectors=(1, 2))
+    types = {
+        "plain": DatasetType("w_plain", {"instrument", "detector"}, "StructuredDataDict", universe=a.dimensions),
+        "calib": DatasetType("w_calib", {"instrument", "detector"}, "StructuredDataDict", universe=a.dimensions, isCalibration=True),
+        "other": DatasetType("w_other", {"instrument"}, "StructuredDataDict", universe=a.dimensions),
+        "calib2": DatasetType("w_calib2", {"instrument"}, "StructuredDataDict", universe=a.dimensions, isCalibration=True),
+    }
+    refs = {}
+    a.registry.registerCollection("wcal", CollectionType.CALIBRATION)
+    # register the non-calibration type of each dimension group first, as most repositories do
+    for k in ("plain", "calib", "other", "calib2"):
+        a.registry.registerDatasetType(types[k])
+    for k, t in types.items():
+        did = {"instrument": "I", "detector": 1} if "detector" in t.dimensions.names else {"instrument": "I"}
+        refs[k] = a.put({"k": k}, t, did)
+    a.registry.certify("wcal", [refs["calib"], refs["calib2"]], Timespan(None, None))
+
+    def viol(what, key, replay):
+        ctx.violations.append(core.Violation(what=what, key=key, replay=replay))
+
+    def battery(bt):
+        out = {}
+        for k, t in types.items():
+            for colls in (["r1"], ["wcal"], ["wcal", "r1"]):
+                for api in ("query_datasets", "queryDatasets", "find"):
+                    try:
+                        if api == "query_datasets":
+                            v = sorted(str(r.id) for r in bt.query_datasets(t.name, collections=colls, find_first=False, explain=False))
+                        elif api == "queryDatasets":
+                            v = sorted(str(r.id) for r in bt.registry.queryDatasets(t.name, collections=colls))
+                        else:
+                            did = {"instrument": "I", "detector": 1} if "detector" in t.dimensions.names else {"instrument": "I"}
+                            r = bt.find_dataset(t.name, did, collections=colls, timespan=Timespan(None, None))
+                            v = None if r is None else str(r.id)
+                    except Exception as e:
+                        v = f"{type(e).__name__}"
+                    out[(k, tuple(colls), api)] = v
+        return out
+
+    ref_client = Butler.from_config(root)
+    list(ref_client.registry.queryDatasetTypes())  # loads every dataset type at once
+    want = battery(ref_client)
+    warm = {
+        "getDataset": lambda bt, k: bt.registry.getDataset(refs[k].id),
+        "get_dataset": lambda bt, k: bt.get_dataset(refs[k].id),
+        "get_dataset_type": lambda bt, k: bt.get_dataset_type(types[k].name),
+        "get": lambda bt, k: bt.get(refs[k]),
+        "query": lambda bt, k: bt.query_datasets(types[k].name, collections=["r1"], explain=False),
+        "refresh": lambda bt, k: bt.registry.refresh(),
+    }
+    corpus = [[("getDataset", "plain"), ("getDataset", "calib")]]
+    n_seq = 25 if ctx.quick() else 600
+    for n in range(n_seq + len(corpus)):
+        seq = corpus[n] if n < len(corpus) else [(rng.choice(sorted(warm)), rng.choice(sorted(types))) for _ in range(rng.randint(1, 4))]
+        bt = Butler.from_config(root)
+        for op, k in seq:
+            warm[op](bt, k)
+        got = battery(bt)
+        ctx.evaluations += 1
+        ctx.count("dataset-type-cache-warmup")
+        if len({k for _, k in seq}) > 1:
+            ctx.nontrivial.add(repr(seq))
+        if got != want:
+            diff = [k for k in want if got[k] != want[k]]
+            first_two = [x for x in seq if x[0] in ("getDataset", "get_dataset", "get")]
+            viol(f"after warm-up {seq} a fresh client answers {diff[0]} with {got[diff[0]]}, a client that loaded all dataset types answers {want[diff[0]]}"
+                 f" ({len(diff)} probes differ)",
+                 "dataset-type-cache-forgets-calibration-table" if all("Assertion" in str(got[k]) for k in diff) else f"dtcache:{seq}",
+                 {"kind": "dtcache", "warmup": [list(x) for x in seq], "differs": [str(k) for k in diff[:5]]})
+        del bt
 
 
 def replay(ctx, content):
